@@ -314,6 +314,12 @@ CHECK_DEADLOCK FALSE
                 hist = [["reconf", a], ["evict", victim], ["reconf", b], ["revive", 0], ["traffic", b[0]], ["revive", 0], ["reconf", b],
                         ["revive", 0]]
                 traces.append(replay(hist, vpc, 6, len(traces), pooling=False))
+    # a node evicted by failover while the advertised list stays the same: the next reconfiguration puts it back
+    for vpc in (True, False):
+        for a in ([1, 2, 3], [2, 1], [4]):
+            for victim in a[:2]:
+                traces.append(replay([["reconf", a], ["evict", victim], ["reconf", a], ["traffic", victim], ["reconf", list(reversed(a))]],
+                                     vpc, 6, len(traces), pooling=False))
     # a node added by hand and then advertised: it stays in the rotation like any other advertised node
     for vpc in (True, False):
         for (a, x, b) in (([1, 2], 3, [1, 2, 3]), ([1], 2, [2]), ([2, 3], 1, [1, 2, 3]), ([1, 2, 3], 4, [4, 2])):
